@@ -11,7 +11,7 @@ func init() { commands["c06"] = func(a []string) { runC06() } }
 
 func runC06() {
 	run := core.NewRun("C06", "exploration")
-	run.SetDeadline(core.Budget(150*time.Second, 25*time.Minute))
+	run.SetDeadline(core.Budget(240*time.Second, 25*time.Minute))
 	shufx.Run(run, run.Tier == "thorough")
 	run.Set("exhaustive", false)
 	run.Assume("reference = verbatim transliteration of compute_shuffled_index (internal/shufx) over crypto/sha256 or the owned hash",
